@@ -1,7 +1,7 @@
 #!/usr/bin/env python3
 """tools/eval_mutants.py [--import] [--confirm] [--only REGEX] [--tier quick] [--extra C13,...]
 
-Imports sub-agent mutants from /tmp/wt/<PID>/out/m<k>/ into /verif/seeded/<PID>-m<k>/ (patch.diff, demo.py, meta.json),
+Imports sub-agent mutants from /tmp/wt{,2,3}/<PID>/out/m<k>/ into /verif/seeded/<PID>-[r2|r3]m<k>/ (patch.diff, demo.py, meta.json),
 confirms them independently (tools/confirm_mutant.sh -> confirm.json) and runs the property's check against a scratch copy
 of /repo with the patch applied (tools/mutant.sh) -> detection.json.  Never touches /repo.
 """
@@ -23,10 +23,12 @@ def sh(cmd, timeout=3600):
 
 
 def do_import():
-    for d in sorted(glob.glob("/tmp/wt/C*/out/m*")) + sorted(glob.glob("/tmp/wt2/C*/out/m*")):
+    for d in sorted(glob.glob("/tmp/wt/C*/out/m*")) + sorted(glob.glob("/tmp/wt2/C*/out/m*")) + sorted(glob.glob("/tmp/wt3/C*/out/m*")):
         pid = d.split("/")[3]; m = os.path.basename(d)
         if d.startswith("/tmp/wt2/"):
             m = "r2" + m
+        if d.startswith("/tmp/wt3/"):
+            m = "r3" + m
         dst = f"{V}/seeded/{pid}-{m}"
         if not os.path.exists(f"{d}/patch.diff"):
             continue
